@@ -251,7 +251,7 @@ pub fn adjust(cfg: &mut SwarmCfg, tier: &str, r: &mut Prng) {
         }
         "C17" => {
             cfg.oracles = sv(&["agreement", "reinit"]);
-            cfg.faults = sv(&["N-REORD", "N-RACE"]);
+            cfg.faults = sv(&["N-REORD", "N-RACE", "B-SUCCESSOR-EXT"]);
             cfg.knobs.push(("reinit".into(), 1));
             cfg.n_parties = cfg.n_parties.clamp(3, 8);
             setw(cfg, "commit", 16);
@@ -408,6 +408,30 @@ pub fn adjust(cfg: &mut SwarmCfg, tier: &str, r: &mut Prng) {
         }
         _ => {}
     }
+    // rarely used public API, drawn from a derived generator (the main stream of the run is left as it was):
+    // the ratchet tree kept by the application (write_to_storage_without_ratchet_tree + load_group_with_ratchet_tree),
+    // Group::clear_proposal_cache, member-to-member HPKE (safe_encrypt_with_context_to_recipient and its counterpart)
+    let mut r2 = r.derive(0x7ee0_0b);
+    let prop = cfg.property.clone();
+    let prop = prop.as_str();
+    if matches!(prop, "C01" | "C06" | "C07" | "C08" | "C09" | "C19") && cfg.knob("no-write-faults").is_none() && r2.chance(1, 4) {
+        cfg.knobs.push(("tree-oob".into(), 1));
+    }
+    if matches!(prop, "C04" | "C06" | "C10" | "C11") && r2.chance(1, 3) {
+        setw(cfg, "clear_cache", 3);
+    }
+    if matches!(prop, "C01" | "C02" | "C09") && r2.chance(1, 3) {
+        setw(cfg, "member_hpke", 4);
+    }
+    if prop == "C12" && r2.chance(1, 2) {
+        // custom proposals whose type sits on the boundary of the RFC-defined range
+        setw(cfg, "custom_type", 6);
+    }
+    if matches!(prop, "C10" | "C16" | "C03") && !cfg.encrypt_handshake && r2.chance(1, 3) {
+        // a Byzantine member's commit that references cached Add proposals which break a rule together
+        setw(cfg, "forge_ref", 5);
+        cfg.faults.push("B-FORGE-REF".into());
+    }
 }
 
 pub fn extra_kinds(w: &World, kinds: &mut Vec<(&'static str, u32)>) {
@@ -429,6 +453,18 @@ pub fn extra_kinds(w: &World, kinds: &mut Vec<(&'static str, u32)>) {
     }
     if w.cfg.weight("xgroup") > 0 && w.groups.len() >= 2 {
         kinds.push(("xgroup", w.cfg.weight("xgroup")));
+    }
+    if w.cfg.weight("forge_ref") > 0 && w.live_members(g).len() >= 2 {
+        kinds.push(("forge_ref", w.cfg.weight("forge_ref")));
+    }
+    if w.cfg.weight("custom_type") > 0 && w.live_members(g).len() >= 2 {
+        kinds.push(("custom_type", w.cfg.weight("custom_type")));
+    }
+    if w.cfg.weight("clear_cache") > 0 && w.live_members(g).iter().any(|p| !w.parties[*p].mems[g].cached.is_empty()) {
+        kinds.push(("clear_cache", w.cfg.weight("clear_cache")));
+    }
+    if w.cfg.weight("member_hpke") > 0 && w.live_members(g).len() >= 2 {
+        kinds.push(("member_hpke", w.cfg.weight("member_hpke")));
     }
     if w.cfg.weight("forge_ext") > 0 && g == 0 && w.ext.ext_sender.is_some() && !w.live_members(g).is_empty() {
         kinds.push(("forge_ext", w.cfg.weight("forge_ext")));
@@ -569,6 +605,24 @@ pub fn extra_action(w: &mut World, kind: &str) -> Option<Action> {
             b: g as u64,
             c: 0,
         }),
+        "forge_ref" => {
+            let live = w.live_members(g);
+            Some(Action::Special {
+                kind: "forge_ref".into(),
+                a: *w.prng.pick(&live) as u64,
+                b: w.prng.below(64),
+                c: g as u64,
+            })
+        }
+        "clear_cache" | "member_hpke" | "custom_type" => {
+            let live = w.live_members(g);
+            Some(Action::Special {
+                kind: kind.into(),
+                a: *w.prng.pick(&live) as u64,
+                b: if kind == "clear_cache" { g as u64 } else { w.prng.below(1 << 16) },
+                c: g as u64,
+            })
+        }
         "late_seq" => {
             let live = w.live_members(g);
             Some(Action::Special {
